@@ -271,23 +271,88 @@ theorem lookup_rev_undef (u : List String) (rest : List Stmt) (n : String) :
     lookupDef ((undefinedAssigns u).reverse ++ rest) n = lookupDef rest n :=
   lookupDef_nondef _ _ _ (fun s hs => nondef_undef s (List.mem_reverse.mp hs))
 
-theorem good_of_state (vars : List String) (fs : FnScope) (dv : List String) (c : OpCall)
+theorem takeWhile_decls (decls rest : List Stmt) (h : ∀ s ∈ decls, isDecl s = true)
+    (hr : ∀ s, rest.head? = some s → isDecl s = false) : (decls ++ rest).takeWhile isDecl = decls := by
+  induction decls with
+  | nil =>
+    cases rest with
+    | nil => rfl
+    | cons r rs => simp [List.takeWhile, hr r rfl]
+  | cons d ds ih =>
+    rw [List.cons_append, List.takeWhile_cons, h d (List.mem_cons_self ..)]
+    simp only [if_true]
+    rw [ih (fun s hs => h s (List.mem_cons_of_mem _ hs))]
+
+theorem mem_declared_decls (fs : FnScope) (vars : List String) (v : String) (hv : v ∈ vars)
+    (hs : BlockVars.isComposite v = false) :
+    v ∈ (nonlocalDecls fs vars).flatMap (fun s => match s with
+      | .global _ ns => ns
+      | .nonlocal _ ns => ns
+      | _ => []) := by
+  unfold nonlocalDecls
+  by_cases hg : fs.globals.contains v = true
+  · have hmem : v ∈ vars.filter fs.globals.contains := List.mem_filter.mpr ⟨hv, hg⟩
+    have hne : (vars.filter fs.globals.contains).isEmpty = false := by
+      cases h : vars.filter fs.globals.contains with
+      | nil => rw [h] at hmem; cases hmem
+      | cons _ _ => rfl
+    simp only [hne, Bool.false_eq_true, if_false, List.flatMap_append, List.mem_append, List.flatMap_cons,
+      List.flatMap_nil, List.append_nil]
+    exact Or.inl hmem
+  · have hmem : v ∈ vars.filter (fun v => !BlockVars.isComposite v && !(vars.filter fs.globals.contains).contains v) := by
+      refine List.mem_filter.mpr ⟨hv, ?_⟩
+      simp only [hs, Bool.not_false, Bool.true_and, Bool.not_eq_true', List.contains_eq_mem, decide_eq_false_iff_not,
+        List.mem_filter, not_and]
+      intro _
+      simpa using hg
+    have hne : (vars.filter (fun v => !BlockVars.isComposite v && !(vars.filter fs.globals.contains).contains v)).isEmpty = false := by
+      cases h : vars.filter (fun v => !BlockVars.isComposite v && !(vars.filter fs.globals.contains).contains v) with
+      | nil => rw [h] at hmem; cases hmem
+      | cons _ _ => rfl
+    simp only [hne, Bool.false_eq_true, if_false, List.flatMap_append, List.mem_append, List.flatMap_cons,
+      List.flatMap_nil, List.append_nil]
+    exact Or.inr hmem
+
+theorem setterDeclares_of (vars : List String) (fs : FnScope) (c : OpCall)
+    (hst : StateOk vars c) (hs : c.setter.body = setterBody vars (nonlocalDecls fs vars)) : SetterDeclares c := by
+  refine ⟨_, hst.setter, ?_⟩
+  intro t ht i s ctx heq hsimple
+  obtain ⟨v, hv, rfl⟩ := List.mem_map.mp ht
+  have hq : qnOf v = .sym s := by
+    have := exprQN_qnExpr .store v
+    rw [heq] at this
+    simpa [exprQN] using this.symm
+  have hvs : v = s := by
+    have := qnOf_toString v
+    rw [hq] at this
+    exact this.symm
+  subst hvs
+  rw [hs]
+  unfold setterBody declaredNames
+  cases vars with
+  | nil => cases hv
+  | cons a as =>
+    simp only [List.isEmpty_cons, Bool.false_eq_true, if_false]
+    rw [takeWhile_decls _ _ isDecl_decl (by intro s' h'; simp only [List.head?_cons, Option.some.injEq] at h'; subst h'; rfl)]
+    exact mem_declared_decls fs _ v hv hsimple
+
+theorem good_of_state (vars : List String) (fs : FnScope) (c : OpCall)
     (hn : c.names = vars.map strConst)
     (hg : c.getter.body = getterBody vars)
-    (hs : c.setter.body = setterBody vars (nonlocalDecls fs dv))
+    (hs : c.setter.body = setterBody vars (nonlocalDecls fs vars))
     (hp : c.setter.params = [setterParam vars])
     (hnd : vars.Nodup) (har : Arity c) (hno : Nouts c) : Good c :=
-  have hst := stateOk_of vars fs dv c hn hg hs hp
-  ⟨hst.lengths, hst.positions, har, hno, hst.distinct hnd, hst.pure⟩
+  have hst := stateOk_of vars fs vars c hn hg hs hp
+  ⟨hst.lengths, hst.positions, har, hno, hst.distinct hnd, hst.pure, setterDeclares_of vars fs c hst hs⟩
 
 theorem ifChunk_good {P : OpCall → Prop} (bv : BlockVars.Result)
-    (hP : ∀ c, c.kind = .ifStmt → Good c → c.names = bv.scopeVars.map strConst → c.last = intConst bv.nouts → P c) (fs : FnScope) (dv : List String) (test : Expr) (body orelse : List Stmt)
+    (hP : ∀ c, c.kind = .ifStmt → Good c → c.names = bv.scopeVars.map strConst → c.last = intConst bv.nouts → P c) (fs : FnScope) (test : Expr) (body orelse : List Stmt)
     (g s b o : String)
     (hgs : g ≠ s) (hgb : g ≠ b) (hgo : g ≠ o) (hsb : s ≠ b) (hso : s ≠ o) (hbo : b ≠ o)
     (hnd : bv.scopeVars.Nodup) (hno : bv.nouts ≤ bv.scopeVars.length)
     (hbody : ∀ pre, AllGood P (emittedBlock pre body))
     (horelse : ∀ pre, AllGood P (emittedBlock pre orelse)) :
-    ∀ pre, AllGood P (emittedBlock pre (ifChunk bv (nonlocalDecls fs dv) test body orelse g s b o)) := by
+    ∀ pre, AllGood P (emittedBlock pre (ifChunk bv (nonlocalDecls fs bv.scopeVars) test body orelse g s b o)) := by
   intro pre
   have horelse' : ∀ pre, AllGood P (emittedBlock pre (if orelse.isEmpty then [.pass 0] else orelse)) := by
     intro pre
@@ -303,7 +368,7 @@ theorem ifChunk_good {P : OpCall → Prop} (bv : BlockVars.Result)
       List.append_nil]
     rw [emittedBlock_all_quiet _ _ (quiet_getterBody _), emittedBlock_all_quiet _ _ (quiet_setterBody _ _ _)]
     simp only [List.nil_append]
-    exact AllGood.append (emitted_defBody P fs dv body hbody) (emitted_defBody P fs dv _ horelse')
+    exact AllGood.append (emitted_defBody P fs _ body hbody) (emitted_defBody P fs _ _ horelse')
   · rw [emittedBlock_all_quiet _ _ quiet_undef]; exact AllGood.nil
   · -- the call
     simp only [emittedBlock_cons, emittedBlock_nil, opCallStmt, opCall?, agOp?, agAttr, kindOfOp, Option.map,
@@ -315,7 +380,7 @@ theorem ifChunk_good {P : OpCall → Prop} (bv : BlockVars.Result)
       if_false, Option.bind_some, Option.pure_def]
     apply AllGood.single
     refine hP _ rfl ?_ rfl rfl
-    refine good_of_state bv.scopeVars fs dv _ rfl rfl rfl rfl hnd ?_ ?_
+    refine good_of_state bv.scopeVars fs _ rfl rfl rfl rfl hnd ?_ ?_
     · simp [Arity, arityOk]
     · intro _
       exact ⟨bv.nouts, natConst_intConst _, by simpa using hno⟩
@@ -327,12 +392,12 @@ theorem quiet_ret (e : List Expr) : ∀ s ∈ [Stmt.ret 0 e], Quiet s := by
 
 theorem whileChunk_good {P : OpCall → Prop} (opts test : Expr)
     (hP : ∀ c, c.kind = .whileStmt → Good c → c.last = opts → whileTest c = some (splice .load test) → P c)
-    (bv : BlockVars.Result) (fs : FnScope) (dv : List String) (body : List Stmt)
+    (bv : BlockVars.Result) (fs : FnScope) (body : List Stmt)
     (g s b t : String)
     (hgs : g ≠ s) (hgb : g ≠ b) (hgt : g ≠ t) (hsb : s ≠ b) (hst : s ≠ t) (hbt : b ≠ t)
     (hnd : bv.scopeVars.Nodup)
     (hbody : ∀ pre, AllGood P (emittedBlock pre body)) :
-    ∀ pre, AllGood P (emittedBlock pre (whileChunk bv (nonlocalDecls fs dv) opts test body g s b t)) := by
+    ∀ pre, AllGood P (emittedBlock pre (whileChunk bv (nonlocalDecls fs bv.scopeVars) opts test body g s b t)) := by
   intro pre
   unfold whileChunk
   rw [stateFunctions_eq, emittedBlock_append, emittedBlock_append]
@@ -341,7 +406,7 @@ theorem whileChunk_good {P : OpCall → Prop} (opts test : Expr)
       List.append_nil]
     rw [emittedBlock_all_quiet _ _ (quiet_getterBody _), emittedBlock_all_quiet _ _ (quiet_setterBody _ _ _)]
     simp only [opCall?, emittedStmt, List.nil_append, List.append_nil]
-    exact emitted_defBody P fs dv body hbody
+    exact emitted_defBody P fs _ body hbody
   · rw [emittedBlock_all_quiet _ _ quiet_undef]; exact AllGood.nil
   · simp only [emittedBlock_cons, emittedBlock_nil, opCallStmt, opCall?, agOp?, agAttr, kindOfOp, Option.map,
       emittedStmt, List.append_nil]
@@ -352,20 +417,20 @@ theorem whileChunk_good {P : OpCall → Prop} (opts test : Expr)
       if_false, Option.bind_some, Option.pure_def]
     apply AllGood.single
     refine hP _ rfl ?_ rfl ?_
-    · refine good_of_state bv.scopeVars fs dv _ rfl rfl rfl rfl hnd ?_ ?_
+    · refine good_of_state bv.scopeVars fs _ rfl rfl rfl rfl hnd ?_ ?_
       · simp [Arity, arityOk]
       · intro h; cases h
     · simp [whileTest]
 
 theorem forChunk_good {P : OpCall → Prop} (opts target iter : Expr)
     (hP : ∀ c, c.kind = .forStmt → Good c → c.last = opts → forBodyTarget c = some (splice .store target) → P c)
-    (bv : BlockVars.Result) (fs : FnScope) (dv : List String) (body : List Stmt)
+    (bv : BlockVars.Result) (fs : FnScope) (body : List Stmt)
     (extraDef : Option (String × Expr)) (g s i b : String)
     (hgs : g ≠ s) (hgb : g ≠ b) (hsb : s ≠ b)
     (hx : ∀ e x, extraDef = some (e, x) → e ≠ g ∧ e ≠ s ∧ e ≠ b)
     (hnd : bv.scopeVars.Nodup)
     (hbody : ∀ pre, AllGood P (emittedBlock pre body)) :
-    ∀ pre, AllGood P (emittedBlock pre (forChunk bv (nonlocalDecls fs dv) opts target iter body extraDef g s i b)) := by
+    ∀ pre, AllGood P (emittedBlock pre (forChunk bv (nonlocalDecls fs bv.scopeVars) opts target iter body extraDef g s i b)) := by
   intro pre
   unfold forChunk
   rw [stateFunctions_eq, emittedBlock_append, emittedBlock_append, emittedBlock_append]
@@ -397,7 +462,7 @@ theorem forChunk_good {P : OpCall → Prop} (opts target iter : Expr)
         if_false, Option.bind_some, Option.pure_def]
       apply AllGood.single
       refine hP _ rfl ?_ rfl ?_
-      · refine good_of_state bv.scopeVars fs dv _ rfl rfl rfl rfl hnd ?_ ?_
+      · refine good_of_state bv.scopeVars fs _ rfl rfl rfl rfl hnd ?_ ?_
         · simp [Arity, arityOk]
         · intro h; cases h
       · simp only [forBodyTarget, List.append_assoc]
@@ -414,7 +479,7 @@ theorem forChunk_good {P : OpCall → Prop} (opts target iter : Expr)
         if_false, Option.bind_some, Option.pure_def, Option.map_some]
       apply AllGood.single
       refine hP _ rfl ?_ rfl ?_
-      · refine good_of_state bv.scopeVars fs dv _ rfl rfl rfl rfl hnd ?_ ?_
+      · refine good_of_state bv.scopeVars fs _ rfl rfl rfl rfl hnd ?_ ?_
         · simp [Arity, arityOk]
         · intro h; cases h
       · simp only [forBodyTarget, List.append_assoc]
@@ -497,7 +562,7 @@ theorem emitIf_good (env : Env) (L : List SourceLoop) (fs : FnScope) (nm : Namer
     (horelse : ∀ pre, AllGood (GoodIn env L) (emittedBlock pre orelse)) :
     ∀ pre, AllGood (GoodIn env L) (emittedBlock pre (emitIf env fs nm id test body orelse).1) := by
   simp only [emitIf]
-  refine ifChunk_good _ (fun c hk hg hn hl => ⟨hg, by simp only [OptsOk, hk]; exact ⟨fs, id, hn, hl⟩⟩) fs _ test body orelse _ _ _ _
+  refine ifChunk_good _ (fun c hk hg hn hl => ⟨hg, by simp only [OptsOk, hk]; exact ⟨fs, id, hn, hl⟩⟩) fs test body orelse _ _ _ _
     ?_ ?_ ?_ ?_ ?_ ?_ (BlockVars.blockVars_nodup ..) (BlockVars.blockVars_nouts ..).1 hbody horelse
   · exact (newSymbol_ne (gen_self ..)).symm
   · exact (newSymbol_ne (gen_mono _ _ (gen_self ..))).symm
@@ -517,7 +582,7 @@ theorem emitWhile_good (env : Env) (L : List SourceLoop) (fs : FnScope) (nm : Na
     simp only [OptsOk, hk]
     exact ⟨_, hL, rfl, hl, ht⟩
   simp only [emitWhile]
-  refine whileChunk_good _ test hopts _ fs _ body _ _ _ _
+  refine whileChunk_good _ test hopts _ fs body _ _ _ _
     ?_ ?_ ?_ ?_ ?_ ?_ (BlockVars.blockVars_nodup ..) hbody
   · exact (newSymbol_ne (gen_self ..)).symm
   · exact (newSymbol_ne (gen_mono _ _ (gen_self ..))).symm
@@ -540,7 +605,7 @@ theorem emitFor_good (env : Env) (L : List SourceLoop) (fs : FnScope) (nm : Name
   cases extra with
   | nil =>
     simp only [emitFor]
-    refine forChunk_good _ target iter hopts _ fs _ body _ _ _ _ _
+    refine forChunk_good _ target iter hopts _ fs body _ _ _ _ _
       ?_ ?_ ?_ ?_ (BlockVars.blockVars_nodup ..) hbody
     · exact (newSymbol_ne (gen_self ..)).symm
     · exact (newSymbol_ne (gen_mono _ _ (gen_mono _ _ (gen_self ..)))).symm
@@ -548,7 +613,7 @@ theorem emitFor_good (env : Env) (L : List SourceLoop) (fs : FnScope) (nm : Name
     · intro e x hex; cases hex
   | cons x' xs =>
     simp only [emitFor]
-    refine forChunk_good _ target iter hopts _ fs _ body _ _ _ _ _
+    refine forChunk_good _ target iter hopts _ fs body _ _ _ _ _
       ?_ ?_ ?_ ?_ (BlockVars.blockVars_nodup ..) hbody
     · exact (newSymbol_ne (gen_self ..)).symm
     · exact (newSymbol_ne (gen_mono _ _ (gen_mono _ _ (gen_mono _ _ (gen_self ..))))).symm
